@@ -125,7 +125,19 @@ def scen_steps(cls):
     def scen(ip, repo):
         dt = Real('dt')
         ip.assume(dt > 0)
-        return {'cls': cls, 'dt': dt, 't0': Real('start_time'), 'T': Real('end_time'), 'ss': Int('start_step'),
+        # the end is a grid point, or clearly off-grid; for ends closer to a grid point than the rounding of the times themselves
+        # (which grows with |start|/dt, so it is not shift invariant) either count is right: that band is C13's (grid/steps/*)
+        from .c13 import U
+        t0, q = Real('start_time'), Real('steps_to_the_end')
+        T = t0 + q * dt
+        absv = lambda x: z3.If(x >= 0, x, -x)
+        m = round_half_even(q)
+        dist = absv(q - z3.ToReal(m))
+        offs = [(absv(t0 + sh) + absv(T + sh)) / dt for sh in (z3.RealVal(0), TAU)]
+        ip.assume(z3.And(q >= 0, q <= 2 ** 20, offs[0] <= 2 ** 40, offs[1] <= 2 ** 40), 'requires (|start| + |end|)/dt <= 2^40 for both time origins')
+        ip.assume(z3.Or(dist == 0, z3.And([dist >= z3.RealVal('1/1000000') + 64 * U * o for o in offs])),
+                  'the end is a grid point or clearly off-grid (C13 owns the band in between)')
+        return {'cls': cls, 'dt': dt, 't0': t0, 'T': T, 'ss': Int('start_step'),
                 'inputs': {'tau': TAU}}
     return scen
 
